@@ -564,7 +564,7 @@ package carddav
 //@ func carddav.(*Client).SyncCollection(c, ctx, path, query) (ret, err)
 //@   requires R1: c != nil && clientOK(c.ic) && query != nil
 //@   allocates
-//@   assigns ghost:data, ghost:doCalls, ghost:lastReq, ghost:sentCount, ghost:sentMethod, ghost:sentPath, ghost:sentBody, ghost:hv
+//@   assigns ghost:data, ghost:doCalls, ghost:lastReq, ghost:sentCount, ghost:sentMethod, ghost:sentPath, ghost:sentBody, ghost:hv, ghost:encLast, ghost:nrCalls, ghost:nrMethod, ghost:nrURL, ghost:nrReq
 //@   ensures Y1: doCalls == old(doCalls) ==> ret == nil && err != nil
 //@   ensures Y2: doCalls == old(doCalls) + 1 && (lastErr(c.ic) != nil || lastStatus(c.ic) != 207) ==> ret == nil && err != nil
 //@   ensures Y3: doCalls == old(doCalls) + 1 && lastErr(c.ic) == nil && lastStatus(c.ic) / 100 != 2 ==> dynHTTP(err) && httpCode(err) == lastStatus(c.ic)
@@ -621,7 +621,7 @@ package carddav
 //@ func carddav.(*Client).FindAddressBookHomeSet(c, ctx, principal) (p, err)
 //@   requires R1: cclientOKCar(c)
 //@   allocates
-//@   assigns ghost:data, ghost:doCalls, ghost:lastReq, ghost:sentCount, ghost:sentMethod, ghost:sentPath, ghost:sentBody, ghost:hv
+//@   assigns ghost:data, ghost:doCalls, ghost:lastReq, ghost:sentCount, ghost:sentMethod, ghost:sentPath, ghost:sentBody, ghost:hv, ghost:encLast, ghost:nrCalls, ghost:nrMethod, ghost:nrURL, ghost:nrReq
 //@   ensures E1: doCalls == old(doCalls) ==> p == "" && err != nil
 //@   ensures E2: doCalls == old(doCalls) + 1 && (lastErr(c.ic) != nil || lastStatus(c.ic) != 207) ==> p == "" && err != nil && (lastErr(c.ic) == nil && lastStatus(c.ic) / 100 != 2 ==> httpCode(err) == lastStatus(c.ic))
 //@   ensures E3: doCalls == old(doCalls) || doCalls == old(doCalls) + 1
@@ -643,7 +643,7 @@ package carddav
 //@ func carddav.(*Client).FindAddressBooks(c, ctx, addressBookHomeSet) (l, err)
 //@   requires R1: cclientOKCar(c)
 //@   allocates
-//@   assigns ghost:data, ghost:doCalls, ghost:lastReq, ghost:sentCount, ghost:sentMethod, ghost:sentPath, ghost:sentBody, ghost:hv
+//@   assigns ghost:data, ghost:doCalls, ghost:lastReq, ghost:sentCount, ghost:sentMethod, ghost:sentPath, ghost:sentBody, ghost:hv, ghost:encLast, ghost:nrCalls, ghost:nrMethod, ghost:nrURL, ghost:nrReq
 //@   ensures E1: doCalls == old(doCalls) ==> l == nil && err != nil
 //@   ensures E2: doCalls == old(doCalls) + 1 && (lastErr(c.ic) != nil || lastStatus(c.ic) != 207) ==> l == nil && err != nil && (lastErr(c.ic) == nil && lastStatus(c.ic) / 100 != 2 ==> httpCode(err) == lastStatus(c.ic))
 //@   ensures E3: doCalls == old(doCalls) || doCalls == old(doCalls) + 1
